@@ -765,7 +765,13 @@ type DCase struct {
 	Data  []byte `json:"data"`
 }
 
-var junkValues = []string{`null`, `1`, `"x"`, `[]`, `[[]]`, `[1]`, `[1,2]`, `[1,2,3,4,5]`, `[[1,2],[3]]`, `[[1,2],[3,4,5]]`, `[[[1,2]]]`, `[[[[[[1,2]]]]]]`, `{}`, `[null]`, `[[null]]`, `[1,"2"]`, `true`, `[1e999,2]`, `[[1,2],null]`, `{"type":"Point"}`, `[{"type":"Point","coordinates":[1,2]},null]`}
+// positions of 258 and 65538 numbers: counts at which an 8- or 16-bit counter reads 2
+var (
+	pos258   = "[" + strings.TrimSuffix(strings.Repeat("1,", 258), ",") + "]"
+	pos65538 = "[" + strings.TrimSuffix(strings.Repeat("1,", 65538), ",") + "]"
+)
+
+var junkValues = []string{pos258, "[" + pos258 + "," + pos258 + "]", pos65538, `null`, `1`, `"x"`, `[]`, `[[]]`, `[1]`, `[1,2]`, `[1,2,3,4,5]`, `[[1,2],[3]]`, `[[1,2],[3,4,5]]`, `[[[1,2]]]`, `[[[[[[1,2]]]]]]`, `{}`, `[null]`, `[[null]]`, `[1,"2"]`, `true`, `[1e999,2]`, `[[1,2],null]`, `{"type":"Point"}`, `[{"type":"Point","coordinates":[1,2]},null]`}
 
 // genCRS draws a legacy GeoJSON "crs" member: the named and linked forms of the
 // 2008 specification with names in the short, URN and URL notations, complete and
